@@ -49,6 +49,8 @@ structure Cfg where
   fix12 : Bool := true
   /-- design/fixes/C13.patch applied (`close()` cancels the event timer and clears the queue) -/
   fix13 : Bool := true
+  /-- design/fixes/C12-resubscribe.patch applied (`discard_event` when a client unsubscribes) -/
+  fixResub : Bool := true
 
 /-! ### dict-like association list (the per-connection `_event_queue`) -/
 
@@ -296,15 +298,29 @@ def writeVal (c : Cfg) (s : St) (x : Cid) (v : Val) (sender : Option Addr) : St 
 /-- `Characteristic.set_value(v)` from the application -/
 def appSet (c : Cfg) (s : St) (x : Cid) (v : Val) : St := writeVal c s x v none
 
-/-- `_notify`: the `ev` member of a write query (ghost: `since` ends with an unsubscription) -/
-def putSub (s : St) (p : ObjId) (x : Cid) (ev : Option Bool) : St :=
+/-- `HAPServer.discard_event(aid, iid, client_addr)` (repair: a client that unsubscribes loses
+    what is still queued for that characteristic) -/
+def dropEvent (c : Cfg) (s : St) (a : Addr) (x : Cid) : St :=
+  if c.fixResub then
+    match s.reg a with
+    | none => s
+    | some q => { s with obj := upd s.obj q { s.obj q with queue := adel (s.obj q).queue x } }
+  else s
+
+/-- `async_subscribe_client_topic(a, topic, False)` for the requesting connection
+    (ghost: `since` ends with an unsubscription) -/
+def unsubSt (s : St) (p : ObjId) (x : Cid) : St :=
+  { s with topics := upd s.topics x (subDel (s.topics x) (s.obj p).addr)
+           obj := upd s.obj p { s.obj p with since := upd (s.obj p).since x false } }
+
+/-- `_notify`: the `ev` member of a write query -/
+def putSub (c : Cfg) (s : St) (p : ObjId) (x : Cid) (ev : Option Bool) : St :=
   let a := (s.obj p).addr
   match ev with
   | none => s
   | some true => { s with topics := upd s.topics x (subAdd (s.topics x) a) }
   | some false =>
-    { s with topics := upd s.topics x (subDel (s.topics x) a)
-             obj := upd s.obj p { s.obj p with since := upd (s.obj p).since x false } }
+    dropEvent c (unsubSt s p x) a x
 
 /-- the `value` member of a write query: `client_update_value`, then the stale-entry discard;
     ghost: the writer has learned `v` from its own acknowledged write -/
@@ -315,7 +331,7 @@ def putVal (c : Cfg) (s : St) (p : ObjId) (x : Cid) (v : Val) : St :=
 
 /-- `AccessoryDriver.set_characteristics` for one query from a verified connection -/
 def putChars (c : Cfg) (s : St) (p : ObjId) (x : Cid) (ev : Option Bool) (val : Option Val) : St :=
-  let s1 := putSub s p x ev
+  let s1 := putSub c s p x ev
   match val with
   | none => s1
   | some v => putVal c s1 p x v
